@@ -101,13 +101,13 @@ def run_case(case, rng):
             # a large constant added to every reward: values shift by c/(1-gamma), the policy must not move at all
             R = R + rng.choice([1e3, 1e5, -1e5])
         gamma = rng.choice([0.3, 0.9, 0.99])
-        w = rng.choice([2.0 ** -10, 2.0 ** -7, 0.05, 0.1, 1.0, 1.0, 10.0])
+        w = rng.choice([2.0 ** -10, 2.0 ** -7, 0.05, 0.1, 1.0, 1.0, 10.0, 2, 5, np.float64(0.5)])   # Python ints too (numpy ints are not among the documented types)
         per_state = rng.random() < 0.3
         if per_state:
             wv = np.array([rng.choice([0.05, 0.1, 1.0, 10.0]) for _ in range(nS)])
             ew = torch.tensor(wv, dtype=torch.float64) if rng.random() < 0.5 else torch.tensor(wv.astype(np.float32))
         else:
-            wv = np.full(nS, w)
+            wv = np.full(nS, float(w))
             ew = w
         pk = rng.choice(["none", "shared", "per_state"])
         if pk == "none":
